@@ -31,3 +31,7 @@ claim("C02", "exhaustive single-deviation mutation (every bit flip of data/diges
   "For every archive up to the bound, every single-bit flip of every block-data and digest byte and every proper prefix not on a section boundary is fed to every verifying scanning reader; returned blocks are re-hashed independently and a clean completion is a violation. Exhaustive over the 1-deviation neighbourhood.",
   "Trusted: refcar hashing; 'all byte strings' is covered only as the 1-deviation neighbourhood of enumerated valid archives.",
   "DESIGN.md 5/C02")
+claim("C13", "exhaustive single-deviation mutation of seed archives (7 byte values per position, every truncation) x options; Inspect(true) compared with a verifying scan of the same payload window",
+  "Every seed archive up to the bound and every 1-deviation neighbour that NewReader accepts is inspected and independently scanned (library BlockReader cross-checked by the reference scan); verdict equivalence and every statistic are compared. Exhaustive over the 1-deviation neighbourhood.",
+  "Inputs where the two scans disagree (e.g. inner header version != 1) are excluded as oracle-ambiguous and counted; corruption coverage is the 1-deviation neighbourhood only.",
+  "DESIGN.md 5/C13")
